@@ -285,14 +285,21 @@ func c01(c *ctx) {
 		}
 	}
 	for si, ls := range seqs {
-		for _, masked := range []bool{false, true} {
-			key := fmt.Sprintf("seq/%v/%v", ls, masked)
+		for mode := 0; mode < 4; mode++ {
+			// all frames unmasked, all masked, or alternating (a masked frame before an unmasked one and
+			// the other way round: nothing of one header may show in the next)
+			allMasked := mode == 1
+			key := fmt.Sprintf("seq/%v/%v", ls, allMasked)
+			if mode >= 2 {
+				key = fmt.Sprintf("seq/%v/alt%d", ls, mode)
+			}
 			if !vh.Only(key) {
 				continue
 			}
 			var stream []byte
 			var hs []vh.H
 			for i, l := range ls {
+				masked := allMasked || (mode == 2 && i%2 == 0) || (mode == 3 && i%2 == 1)
 				h := vh.H{Fin: true, Rsv: (si + i) % 8, Op: 1 + (si+i)%2, Masked: masked, Mask: []int{0, 0, 0, 0}, N: uint64(l)}
 				if masked {
 					h.Mask = []int{17 + i, 34, 51 + si%200, 68}
@@ -318,7 +325,7 @@ func c01(c *ctx) {
 				src.Pos += ls[len(decs)-1] // skip the payload on the transport itself, whatever the reader believes
 			}
 			out.Emit(map[string]interface{}{"k": "seq", "key": key, "hs": hs, "decs": decs}, true)
-			shapes.Add("seq/%d/%v", len(ls), masked)
+			shapes.Add("seq/%d/%d", len(ls), mode)
 			n++
 		}
 	}
